@@ -108,6 +108,23 @@ def gen(rng, tier):
     for _ in range(50 if not thorough else 2000):
         a = rpkt(rng); b = rng.choice([a, rpkt(rng)])
         out.append(Case("hdr.equal %s %s" % (hx(a), hx(b)), kind="equal-random", theorem="C01_equal_iff"))
+    # differences that cancel under a checksum-like comparison (seeded C01-v2: differences XOR-accumulated): the same
+    # bit flipped in two bytes, two unequal bytes exchanged, the same delta added to one byte and subtracted from another
+    for k in range(300 if not thorough else 6000):
+        a = bytearray(rpkt(rng)); b = bytearray(a)
+        i, j = rng.sample(range(188), 2)
+        if k < 8:
+            i, j = [(1, 10), (3, 4), (0, 187), (2, 3), (4, 5), (1, 2), (100, 101), (186, 187)][k]
+        m = k % 3
+        if m == 0:
+            bit = 1 << rng.randrange(8); b[i] ^= bit; b[j] ^= bit
+        elif m == 1:
+            if b[i] == b[j]:
+                b[j] ^= 0x40; a[j] ^= 0x40
+            b[i], b[j] = b[j], b[i]
+        else:
+            d = rng.randrange(1, 256); b[i] = (b[i] + d) % 256; b[j] = (b[j] - d) % 256
+        out.append(Case("hdr.equal %s %s" % (hx(bytes(a)), hx(bytes(b))), kind="equal-cancelling", theorem="C01_equal_iff"))
     # ---- FromBytes: every length 0..400 (only 188 may give a packet); 188 with each error class
     for ln in list(range(0, 401)) + [1000, 1880]:
         b = bytes(rng.randrange(256) for _ in range(ln))
